@@ -247,6 +247,7 @@ LawEmptyWins    == (L2t /\ LabelEmpty(K.to)) => AllowedTags(K.to) = {<<>>}
 LawFnWins       == (L2t /\ ~LabelEmpty(K.to) /\ K.to.fn = "h") => AllowedTags(K.to) = {FnTags(K.to)}
 Stronger(to)    == LabelEmpty(to) \/ to.fn = "h" \/ to.termmap = "h" \/ to.tagmap = "h"
 LawLabelIsValue == (L2t /\ ~Stronger(K.to)) => \A t \in AllowedTags(K.to) : Len(t) = 1 /\ t[1][2] = K.to.label
+LawTermMapBeatsTagMap == (L2t /\ ~LabelEmpty(K.to) /\ K.to.fn # "h" /\ K.to.termmap = "h") => AllowedTags(K.to) = {One("TM", K.to)}
 LawTagMapBeatsExplicit == (L2t /\ ~LabelEmpty(K.to) /\ K.to.fn # "h" /\ K.to.termmap # "h" /\ K.to.tagmap = "h")
                           => AllowedTags(K.to) = {MapTags(K.to)}
 LawExplicitKeyKept == (L2t /\ ~Stronger(K.to) /\ K.to.keymap # "h" /\ K.to.term = <<>> /\ K.to.key # <<>>)
